@@ -871,18 +871,51 @@ def tecmp_lin_payload(rng, n, declared=None, cks=1):
     return be(rng.getrandbits(8), 1) + be(n if declared is None else declared, 1) + proto.rand_bytes(rng, n) + proto.rand_bytes(rng, cks)
 
 
-def tecmp_cm_payload(rng, length=36):
-    b = be(rng.getrandbits(8), 1) * 3 + b"\0" + be(24, 2) + be(rng.getrandbits(16), 2) + be(rng.choice([0, 1, 4294967295, rng.getrandbits(32)]), 4) + b"\0"
+def tecmp_cm_payload(rng, length=36, vendor=None):
+    """capture-module status payload: 12 generic bytes (vendor id, device version, device type, reserved, vendor data length u16 @4,
+    device id u16 @6, serial number u32 @8) followed by the vendor data (reserved byte, software version @13..15, hardware version
+    @16..17, buffer / lifecycle / voltage / temperature fields).  `vendor`: the DECLARED vendor data length; default: consistent,
+    i.e. what really follows the generic part (`length - 12`)."""
+    if vendor is None:
+        vendor = max(0, length - 12)
+    b = be(rng.getrandbits(8), 1) * 3 + b"\0" + be(vendor, 2) + be(rng.getrandbits(16), 2) + be(rng.choice([0, 1, 4294967295, rng.getrandbits(32)]), 4) + b"\0"
     b += bytes([rng.choice([0, 9, 10, 99, 100, 255]) for _ in range(5)])
     b += proto.rand_bytes(rng, 18)
     return b[:length] if length <= len(b) else b + proto.rand_bytes(rng, length - len(b))
 
 
-def tecmp_bus_payload(rng, entries, extra=0):
-    b = proto.rand_bytes(rng, 12)
+def tecmp_bus_payload(rng, entries, extra=0, v=0, declared=None):
+    """bus status payload: 12 generic bytes (vendor id, cm version, cm type, reserved, vendor data length u16 @4, device id u16 @6,
+    serial number u32 @8), then `entries` entries of 12 + v bytes (interface id u32, messages total u32, errors total u32, v bytes of
+    vendor data), then `extra` stray bytes.  `declared`: the vendor data length written into the generic part (default: v, consistent)."""
+    b = proto.rand_bytes(rng, 4) + be(v if declared is None else declared, 2) + proto.rand_bytes(rng, 6)
     for _ in range(entries):
-        b += be(rng.getrandbits(32), 4) + be(rng.getrandbits(32), 4) + be(rng.getrandbits(32), 4)
+        b += be(rng.getrandbits(32), 4) + be(rng.getrandbits(32), 4) + be(rng.getrandbits(32), 4) + proto.rand_bytes(rng, v)
     return b + proto.rand_bytes(rng, extra)
+
+
+def tecmp_expected(b):
+    """What the TECMP wire format says about a bus-status or capture-module status message, computed from the bytes alone
+    (independent of the Lean model): ("bus", [(interface id, messages total, errors total), ...]) - one triple per COMPLETE entry of
+    12 + declared vendor data length bytes behind the 12 generic bytes; ("cm", 0 or 1) - a packet iff the fields read (18 bytes) and
+    the declared vendor data (behind the 12 generic bytes) are inside the payload; None for every other buffer."""
+    if len(b) < 28 or b[0] != 0:
+        return None
+    plen = int.from_bytes(b[24:26], "big")
+    accepted = plen != 0 and len(b) >= 28 + plen and b[5] != 0xFF and not (b[6] == 0xFF and b[7] == 0)
+    p = b[28:]
+    if b[5] == 2:
+        out = []
+        if accepted and len(p) >= 12:
+            v = int.from_bytes(p[4:6], "big")
+            off = 12
+            while off + 12 + v <= len(p):
+                out.append(tuple(int.from_bytes(p[off + k:off + k + 4], "big") for k in (0, 4, 8)))
+                off += 12 + v
+        return ("bus", out)
+    if b[5] == 1:
+        return ("cm", 1 if accepted and len(p) >= 18 and int.from_bytes(p[4:6], "big") <= len(p) - 12 else 0)
+    return None
 
 
 def gen_tecmp_frames(tier, rng):
@@ -910,23 +943,45 @@ def gen_tecmp_frames(tier, rng):
     for n in (17, 18, 19, 35, 36, 37, 50):
         for _ in range(4):
             out.append((tecmp_frame(rng, 1, rng.choice([0, 2]), tecmp_cm_payload(rng, n)), "cm"))
+        # declared vendor data length: none, less than / exactly / more than what follows the 12 generic bytes, the payload size itself
+        # (a length counted from the start of the payload), 16-bit extremes
+        for vd in (0, 1, 5, 6, 7, n - 13, n - 12, n - 11, n, n + 1, 255, 256, 0x7FFF, 0x8000, 0xFFFF):
+            if vd >= 0:
+                out.append((tecmp_frame(rng, 1, 0, tecmp_cm_payload(rng, n, vendor=vd)), "cm-vendor-fit" if n >= 18 and vd <= n - 12 else "cm-vendor-misfit"))
     # version bytes at the digit-count boundaries (longest strings: v255.255.255 / v255.255), serial at its extremes
     for vals in ([255] * 5, [100] * 5, [99] * 5, [9, 10, 100, 9, 10], [0] * 5, [199, 200, 255, 100, 99]):
         b = bytearray(tecmp_cm_payload(rng, 36))
         b[13:18] = bytes(vals)
         b[8:12] = be(rng.choice([0, 9, 10, 4294967295, 1000000000, 999999999]), 4)
         out.append((tecmp_frame(rng, 1, 0, bytes(b)), "cm-digits"))
-    for e in range(0, 41 if tier != "quick" else 12):
-        for extra in (0, 1, 11):
-            out.append((tecmp_frame(rng, 2, 0, tecmp_bus_payload(rng, e, extra)), "bus"))
-    # entry counts at which the running byte offset 12 + 12 e crosses 8 and 16 bit (21 / 22 entries: 264 / 276; 5460: the most a
-    # 16-bit payload length admits)
+    # bus status: entries of 12 + v bytes, v = the vendor data length the generic part declares; every entry count 0..40
+    for v in (0, 1, 4, 7, 12, 24):
+        for e in range(0, 41):
+            extras = (0, 1, 11) if v == 0 else (0, 11, 12, 12 + v - 1)          # nothing / a truncated last entry (also: its 12 counter bytes without the vendor data)
+            if tier == "quick" and e > 12:
+                extras = (0, extras[-1]) if e % 2 else (extras[1],)
+            for extra in extras:
+                out.append((tecmp_frame(rng, 2, 0, tecmp_bus_payload(rng, e, extra, v=v)), "bus" if v == 0 else "bus-vendor"))
+        # declared vendor data length larger / smaller than what the entries really carry (the parse runs out of step or out of bytes)
+        for e in (0, 1, 2, 3, 7, 40):
+            for d in (v + 1, v + 12, 12 * e + v * e, 12 * e + v * e + 1, 0xFF, 0x100, 0x8000, 0xFFFF, max(0, v - 1), 0):
+                if d != v:
+                    out.append((tecmp_frame(rng, 2, 0, tecmp_bus_payload(rng, e, rng.choice([0, 0, 5]), v=v, declared=d)), "bus-vendor-misdeclared"))
+    # entry counts at which the running byte offset 12 + (12 + v) e crosses 8 and 16 bit (v = 0: 21 / 22 entries: 264 / 276; 5460: the
+    # most a 16-bit payload length admits; v = 4: 15 / 16 and 4095; v = 24: 6 / 7; v = 243 / 244: the first entry ends at 267 / 268)
     for e in (20, 21, 22, 23, 42, 43, 100, 5460):
         out.append((tecmp_frame(rng, 2, 0, tecmp_bus_payload(rng, e, 0)), "bus"))
+    for v, e in ((4, 15), (4, 16), (4, 4095), (24, 6), (24, 7), (243, 1), (244, 1), (244, 2)):
+        out.append((tecmp_frame(rng, 2, 0, tecmp_bus_payload(rng, e, 0, v=v)), "bus-vendor"))
+    # the largest declarable vendor data length: one entry of 12 + 65535 bytes, complete and one byte short (the payload is longer
+    # than a 16-bit payload length can say; the declared payload length only gates)
+    for short in (0, 1):
+        pl = tecmp_bus_payload(rng, 1, 0, v=0xFFFF)
+        out.append((tecmp_frame(rng, 2, 0, pl[:len(pl) - short], plen=0xFFFF), "bus-vendor"))
     # all 256 message types, many data types
     for mt in range(256):
         for dt in [2, 4, rng.randrange(0, 0x101), 0x8000, 0xFFFF, 0xFF00, 0x00FF, rng.getrandbits(16)]:
-            pl = rng.choice([tecmp_can_payload(rng, 8), tecmp_lin_payload(rng, 4), tecmp_cm_payload(rng), tecmp_bus_payload(rng, 2)])
+            pl = rng.choice([tecmp_can_payload(rng, 8), tecmp_lin_payload(rng, 4), tecmp_cm_payload(rng), tecmp_bus_payload(rng, 2, v=rng.choice([0, 4]))])
             out.append((tecmp_frame(rng, mt, dt, pl), "all-types"))
     # data messages whose 16-bit data type only ALIASES a supported kind in one of its bytes (0xNN02 / 0xNN03 / 0xNN04, 0x0200 ...): the
     # payload is well-formed for the aliased kind, so a dispatch on a narrowed or byte-swapped data type converts it
@@ -939,7 +994,8 @@ def gen_tecmp_frames(tier, rng):
             out.append((tecmp_frame(rng, 3, dt, tecmp_can_payload(rng, 8)), "all-types"))
     # header-level inconsistencies
     for _ in range(200 if tier == "quick" else 2000):
-        pl = rng.choice([tecmp_can_payload(rng, rng.randrange(0, 20)), tecmp_lin_payload(rng, rng.randrange(0, 9)), tecmp_bus_payload(rng, rng.randrange(0, 3))])
+        pl = rng.choice([tecmp_can_payload(rng, rng.randrange(0, 20)), tecmp_lin_payload(rng, rng.randrange(0, 9)), tecmp_bus_payload(rng, rng.randrange(0, 3)),
+                         tecmp_bus_payload(rng, rng.randrange(0, 4), v=rng.choice([1, 4, 7])), tecmp_cm_payload(rng, rng.choice([18, 24, 36]))])
         mt = rng.choice([1, 2, 3])
         dt = rng.choice([2, 3, 4])
         fr = tecmp_frame(rng, mt, dt, pl, plen=rng.choice([0, 1, len(pl), len(pl) + 1, len(pl) - 1 if pl else 0, 0xFFFF, 0xFFFF - rng.randrange(0, 40),
@@ -1108,7 +1164,9 @@ def gen_c02(tier, rng):
         chunk = frames[i:i + 25]
         ops = [feed(fr) for fr, _ in chunk]
         for fr, _t in chunk[:5]:
-            for cut in range(0, len(fr), 3):
+            # every third truncation; of a frame of several KiB only those around the header, the generic part and the end
+            cuts = range(0, len(fr), 3) if len(fr) <= 4096 else list(range(0, 96, 3)) + list(range(len(fr) - 48, len(fr), 3))
+            for cut in cuts:
                 ops.append(feed(fr[:cut]))
         ops.append("dec d reprint")
         cases.append(Case("c02t", ops, nontrivial=True, tags=("tecmp",)))
@@ -1178,12 +1236,38 @@ def pred_c04(case, impl, model, ctx):
 
 
 def pred_c15(case, impl, model, ctx):
-    """the C15 theorems characterise tecmpDecode on every input class (supported kinds: the wire fields; everything else: no packet)"""
+    """the C15 theorems characterise tecmpDecode on every input class (supported kinds: the wire fields; everything else: no packet):
+    the implementation's line must be the model's; in addition, for bus-status and capture-module status messages, what the TECMP
+    wire format says (tecmp_expected, computed from the bytes alone, not from the Lean model) is checked on the implementation's
+    output: one interface-status packet per complete entry of 12 + declared vendor data length bytes, with that entry's interface id
+    and counters; a capture-module packet iff the declared vendor data fits"""
     for o, l, m in zip(case.ops, impl, model):
         if l.startswith("CRASH"):
             return False
-        if (o.startswith("dec d feed") or o.startswith("tecmp ")) and l != m:
+        if not (o.startswith("dec d feed") or o.startswith("tecmp ")):
+            continue
+        if l != m:
             return False
+        hx = o.split(" ")[-1]
+        exp = tecmp_expected(b"" if hx == "-" else bytes.fromhex(hx))
+        if exp is None:
+            continue
+        w = l.split(" ")
+        if w[0] != "pk" or not w[1].isdigit() or int(w[1]) != len(w) - 2:
+            return False
+        pks = [x.split(":") for x in w[2:]]
+        if exp[0] == "cm":
+            if len(pks) != exp[1] or any(int(x[0], 16) != 0x0301 for x in pks):
+                return False
+        else:
+            if len(pks) != len(exp[1]):
+                return False
+            for x, (ifid, msgs, errs) in zip(pks, exp[1]):
+                if len(x) < 13 or int(x[0], 16) != 0x0302 or int(x[6]) != ifid or len(x[12]) != 80:
+                    return False
+                d = bytes.fromhex(x[12])
+                if (int.from_bytes(d[0:4], "big"), int.from_bytes(d[4:8], "big"), int.from_bytes(d[20:24], "big")) != (ifid, msgs, errs):
+                    return False
     return len(impl) <= len(case.ops)
 
 
